@@ -217,6 +217,34 @@ fn gen_c10(tier: &str, rng: &mut Rng, emit: &mut dyn FnMut(Op)) {
         emit(Op::new("distinfo.roundtrip", &[&d]));
         emit(Op::new("entrytype", &[n]));
     }
+    // two names that differ only in bytes that are not UTF-8 are two files
+    for (a, b) in [(&b"caf\xe9-1.0.tar.gz"[..], &b"caf\xe8-1.0.tar.gz"[..]), (b"x\xff.tgz", b"x\xef\xbf\xbd.tgz"), (b"patch-\xe9", b"patch-\xe8"), (b"d\xe9/x.tgz", b"d\xe8/x.tgz")] {
+        let mut d = b"$NetBSD$\n\n".to_vec();
+        let patch = a.starts_with(b"patch-");
+        for n in [a, b] {
+            for alg in if patch { vec!["SHA1"] } else { vec!["BLAKE2s", "SHA512"] } {
+                d.extend(format!("{} (", alg).as_bytes());
+                d.extend(n);
+                d.extend(b") = 0123456789abcdef\n");
+            }
+            if !patch {
+                d.extend(b"Size (");
+                d.extend(n);
+                d.extend(if n == a { &b") = 1 bytes\n"[..] } else { &b") = 2 bytes\n"[..] });
+            }
+        }
+        emit(Op::new("distinfo.roundtrip", &[&d]));
+        emit(Op::new("distinfo.parse", &[&d]));
+        let mk = |n: &[u8], h: &str| { let mut c = vec![1u8]; c.extend(n); c.push(0); if patch { c.push(b'-'); } else { c.extend(b"7"); } c.push(0); c.extend(b"SHA1"); c.push(0); c.extend(h.as_bytes()); c };
+        emit(Op::new("distinfo.build", &[&mk(a, "aa"), &mk(b, "bb")]));
+    }
+    // an update through insert() under another SPELLING of the same path
+    for (n1, n2) in [(&b"sub/foo.tgz"[..], &b"sub//foo.tgz"[..]), (b"sub//foo.tgz", b"sub/foo.tgz"), (b"sub/foo.tgz", b"sub/./foo.tgz"), (b"foo.tgz", b"./foo.tgz"),
+        (b"sub/patch-aa", b"sub//patch-aa"), (b"a/b/c.tgz", b"a//b/./c.tgz")] {
+        let mk = |n: &[u8], h: &str| { let mut c = vec![1u8]; c.extend(n); c.push(0); c.extend(b"7"); c.push(0); c.extend(b"SHA1"); c.push(0); c.extend(h.as_bytes()); c };
+        emit(Op::new("distinfo.build", &[&mk(n1, "aa"), &mk(n2, "bb")]));
+        emit(Op::new("distinfo.build", &[&mk(b"other.tgz", "cc"), &mk(n1, "aa"), &mk(n2, "bb"), &mk(n1, "dd")]));
+    }
     for _ in 0..(if thorough { 20000 } else { 1500 }) {
         let f = canonical_file(rng);
         emit(Op::new("distinfo.roundtrip", &[&f]));
@@ -321,6 +349,24 @@ fn gen_c11(tier: &str, rng: &mut Rng, emit: &mut dyn FnMut(Op)) {
         for mid in [".tar.xz", ".tar.gz.sig", ".tar.xz.asc", ".tar.", ".tar", ".tar.gz.sha256.txt", "a.tar.b.c", ".tar..", ".tar.tar.", ".tarx.gz", "x.tar"] {
             let n = format!("{}{}", pre, mid);
             emit(Op::new("entrytype", &[n.as_bytes()]));
+        }
+    }
+    // a second (third) RCS id line is one more ignored line: nothing recorded before it is lost
+    for doc in [&b"$NetBSD: distinfo,v 1.1 $\n\nSHA1 (a.tgz) = 11\nSize (a.tgz) = 5 bytes\n$NetBSD: distinfo,v 1.2 $\nSHA1 (b.tgz) = 22\nSHA1 (patch-aa) = 33\n"[..],
+        b"SHA1 (a.tgz) = 11\n$NetBSD$\nRMD160 (a.tgz) = 12\n$NetBSD: x $\n$NetBSD: y $\nSHA1 (patch-aa) = 33\n",
+        b"$NetBSD: 1 $\n$NetBSD: 2 $\n"] {
+        emit(Op::new("distinfo.parse", &[doc]));
+    }
+    // an algorithm name is one of the six, in any letter case — nothing else, whatever bit is flipped
+    for name in DNAMES {
+        for i in 0..name.len() {
+            for bit in [0x20u8, 0x40, 0x10, 0x80, 0x01] {
+                let mut b = name.as_bytes().to_vec();
+                b[i] ^= bit;
+                let mut l = b.clone();
+                l.extend(b" (f.tgz) = abc");
+                emit(Op::new("distinfo.line", &[&l]));
+            }
         }
     }
     for j in 0..16 {
@@ -561,6 +607,40 @@ fn gen_c12(tier: &str, rng: &mut Rng, emit: &mut dyn FnMut(Op)) {
         }
         for l in lookups {
             emit(Op::new("distinfo.find", &[&doc, l]));
+        }
+    }
+    // an entry is a patch or a distfile by its NAME, whichever of its lines comes first; the entry
+    // that a path resolves to is the one that is verified, whatever it lacks
+    {
+        let content: &[u8] = b"$NetBSD: patch-aa,v 1.1 2024/01/01 00:00:00 x Exp $\n\n--- a\n+++ b\n@@\n-x\n+y\n";
+        let plain = hashes(content, false);
+        let patch = hashes(content, true);
+        let ph: Vec<&str> = patch.split(',').collect();
+        let pl: Vec<&str> = plain.split(',').collect();
+        for name in [&b"patch-aa"[..], b"sub/patch-ab", b"emul-linux-patch-a"] {
+            for first_size in [true, false] {
+                let mut doc: Vec<u8> = vec![];
+                let size = format!(") = {} bytes\n", content.len());
+                if first_size { doc.extend(b"Size ("); doc.extend(name); doc.extend(size.as_bytes()); }
+                for i in [3usize, 5] { doc.extend(format!("{} (", DNAMES[i]).as_bytes()); doc.extend(name); doc.extend(format!(") = {}\n", ph[i]).as_bytes()); }
+                if !first_size { doc.extend(b"Size ("); doc.extend(name); doc.extend(size.as_bytes()); }
+                emit(Op::new("distinfo.verify", &[&doc, name, content, b"1", plain.as_bytes(), patch.as_bytes()]));
+                emit(Op::new("distinfo.parse", &[&doc]));
+            }
+        }
+        for (doc_lines, path) in [(vec![("SHA1", &b"c.tgz"[..]), ("RMD160", b"b/c.tgz"), ("Size", b"b/c.tgz")], &b"b/c.tgz"[..]),
+            (vec![("Size", b"c.tgz"), ("SHA1", b"b/c.tgz"), ("RMD160", b"b/c.tgz")], b"x/b/c.tgz"),
+            (vec![("SHA512", b"c.tgz"), ("SHA1", b"a/b/c.tgz"), ("Size", b"a/b/c.tgz"), ("SHA1", b"b/c.tgz")], b"a/b/c.tgz")] {
+            let mut doc: Vec<u8> = vec![];
+            for (alg, n) in &doc_lines {
+                if *alg == "Size" {
+                    doc.extend(b"Size ("); doc.extend(*n); doc.extend(format!(") = {} bytes\n", content.len()).as_bytes());
+                } else {
+                    let i = DNAMES.iter().position(|d| d == alg).unwrap();
+                    doc.extend(format!("{} (", alg).as_bytes()); doc.extend(*n); doc.extend(format!(") = {}\n", pl[i]).as_bytes());
+                }
+            }
+            emit(Op::new("distinfo.verify", &[&doc, path, content, b"1", plain.as_bytes(), patch.as_bytes()]));
         }
     }
     // the lines of one file need not be contiguous: everything recorded for it is found together
